@@ -29,15 +29,15 @@ func (c18) Rule() string {
 }
 func (c18) Assumptions() []string {
 	return []string{
-		"no fault kind applies to this property; the simulator's contribution is owning the RNG seed and the call order",
+		"the simulator's contribution is owning the RNG seed and the call order; the one fault injected is the caller overwriting the configuration struct it passed to a constructor (the configured parameters are those at construction)",
 		"statistical thresholds: 7 standard errors (two-sided tail 2.6e-12 per statistic) computed from the configured distribution; KS threshold 4.5/sqrt(n) (tail about 5e-18)",
 		"repeated values inside a uniform pool are tolerated up to 3 (53-bit draws; birthday bound 2e-8 per pool); not checked for normal pools (the ziggurat sampler has about 2^39 distinct outputs)",
-		"if re-seeding with the same value does not reproduce the same tensor the check stops with exit 2: the library then draws from a source the simulator does not own and nothing can be decided",
+		"if re-seeding with the same value does not reproduce the same tensor (random state the seed does not reach) the oracles still apply; the run is flagged by a probe and a failure is confirmed from a fresh process",
 	}
 }
 func (c18) Extra() map[string]any {
 	e := baseExtra()
-	e["fault_kinds"] = []string{"none applicable (reseed is used only to prove the seam is the sole source)"}
+	e["fault_kinds"] = []string{"alias-scribble on the configuration struct between constructing an initializer and calling Init", "reseed (seam self-test only)"}
 	return e
 }
 
@@ -139,6 +139,9 @@ func (c18) Generate(r *sim.Rand, tier string) *sim.Scenario {
 			}
 			f.left -= sim.NElems(st.I)
 		}
+		if st.Tag != "randu" && st.Tag != "randn" && !st.B && r.Bool(0.3) {
+			st.N = 1 // alias-scribble on the config struct between construction and Init
+		}
 		sc.Steps = append(sc.Steps, st)
 	}
 	return sc
@@ -177,7 +180,11 @@ func c18draw(st sim.Step) (t tensor.Tensor, err error, p pool18, random bool) {
 		if st.B {
 			in = initializers.NewFull(nil)
 		} else {
-			in = initializers.NewFull(&initializers.FullConfig{Value: f(0)})
+			cf := &initializers.FullConfig{Value: f(0)}
+			in = initializers.NewFull(cf)
+			if st.N == 1 {
+				cf.Value = -12345
+			}
 		}
 		t, err = in.Init(shape)
 		return
@@ -188,7 +195,11 @@ func c18draw(st sim.Step) (t tensor.Tensor, err error, p pool18, random bool) {
 			in, err = initializers.NewUniform(nil)
 			p.lo, p.hi = -0.05, 0.05
 		} else {
-			in, err = initializers.NewUniform(&initializers.UniformConfig{Lower: f(0), Upper: f(1)})
+			cf := &initializers.UniformConfig{Lower: f(0), Upper: f(1)}
+			in, err = initializers.NewUniform(cf)
+			if st.N == 1 {
+				cf.Lower, cf.Upper = 37, 38
+			}
 		}
 		if err == nil {
 			t, err = in.Init(shape)
@@ -201,13 +212,21 @@ func c18draw(st sim.Step) (t tensor.Tensor, err error, p pool18, random bool) {
 			in, err = initializers.NewNormal(nil)
 			p.mu, p.sd = 0, 0.05
 		} else {
-			in, err = initializers.NewNormal(&initializers.NormalConfig{Mean: f(0), StdDev: f(1)})
+			cf := &initializers.NormalConfig{Mean: f(0), StdDev: f(1)}
+			in, err = initializers.NewNormal(cf)
+			if st.N == 1 {
+				cf.Mean, cf.StdDev = 1e6, 1e-9
+			}
 		}
 		if err == nil {
 			t, err = in.Init(shape)
 		}
 	case "heuniform":
-		in, e := initializers.NewHeUniform(&initializers.HeUniformConfig{FanIn: int(f(0))})
+		cf := &initializers.HeUniformConfig{FanIn: int(f(0))}
+		in, e := initializers.NewHeUniform(cf)
+		if st.N == 1 {
+			cf.FanIn = 1 << 20
+		}
 		err = e
 		if err == nil {
 			t, err = in.Init(shape)
@@ -215,14 +234,22 @@ func c18draw(st sim.Step) (t tensor.Tensor, err error, p pool18, random bool) {
 		r := math.Sqrt(6 / f(0))
 		p.lo, p.hi, p.unif = -r, r, true
 	case "henormal":
-		in, e := initializers.NewHeNormal(&initializers.HeNormalConfig{FanIn: int(f(0))})
+		cf := &initializers.HeNormalConfig{FanIn: int(f(0))}
+		in, e := initializers.NewHeNormal(cf)
+		if st.N == 1 {
+			cf.FanIn = 1 << 20
+		}
 		err = e
 		if err == nil {
 			t, err = in.Init(shape)
 		}
 		p.mu, p.sd = 0, math.Sqrt(2/f(0))
 	case "xavieruniform":
-		in, e := initializers.NewXavierUniform(&initializers.XavierUniformConfig{FanIn: int(f(0)), FanOut: int(f(1))})
+		cf := &initializers.XavierUniformConfig{FanIn: int(f(0)), FanOut: int(f(1))}
+		in, e := initializers.NewXavierUniform(cf)
+		if st.N == 1 {
+			cf.FanIn, cf.FanOut = 1<<20, 1<<20
+		}
 		err = e
 		if err == nil {
 			t, err = in.Init(shape)
@@ -230,7 +257,11 @@ func c18draw(st sim.Step) (t tensor.Tensor, err error, p pool18, random bool) {
 		r := math.Sqrt(6 / (f(0) + f(1)))
 		p.lo, p.hi, p.unif = -r, r, true
 	case "xaviernormal":
-		in, e := initializers.NewXavierNormal(&initializers.XavierNormalConfig{FanIn: int(f(0)), FanOut: int(f(1))})
+		cf := &initializers.XavierNormalConfig{FanIn: int(f(0)), FanOut: int(f(1))}
+		in, e := initializers.NewXavierNormal(cf)
+		if st.N == 1 {
+			cf.FanIn, cf.FanOut = 1<<20, 1<<20
+		}
 		err = e
 		if err == nil {
 			t, err = in.Init(shape)
@@ -270,7 +301,12 @@ func (prop c18) Execute(sc *sim.Scenario) *sim.Outcome {
 	}
 	sim.Pause()
 	if probe() != probe() {
-		sim.Bug("C18: seeding golang.org/x/exp/rand twice with the same value did not reproduce RandU/RandN: the library draws randomness from a source the simulator does not own; nothing can be decided")
+		// The library keeps random state the seed does not reach (a cached
+		// variate, a private generator). Every oracle below stays sound — a
+		// value outside the configured support is a violation whatever produced
+		// it — but a failing history is then only replayable from a fresh
+		// process, which is how the driver confirms it.
+		out.Probes["rng-state-not-reset-by-seed"]++
 	}
 	sim.Resume()
 	out.Faults["reseed (seam self-test)"]++
@@ -286,6 +322,9 @@ func (prop c18) Execute(sc *sim.Scenario) *sim.Outcome {
 		where := fmt.Sprintf("call %d (c%d %s %v shape %v nil-config=%v)", si, st.C, st.Tag, st.F, st.I, st.B)
 		sig = sig.Str(st.Tag)
 		t, err, p, random := c18draw(st)
+		if st.N == 1 {
+			out.Faults["alias-scribble/config-struct"]++
+		}
 		if err != nil && err.Error() == "malformed" {
 			out.Discard = "malformed"
 			return out
